@@ -3,6 +3,7 @@ from __future__ import annotations
 from collections import deque
 from typing import TYPE_CHECKING
 
+from rattr import error
 from rattr.models.results import FileResults
 from rattr.results import (
     IrCallTreeNode,
@@ -116,7 +117,16 @@ def make_target_ir_call_tree(
             if call.symbol in seen:
                 continue
 
-            call_target = find_call_target_and_ir(call, environment=environment)
+            try:
+                call_target = find_call_target_and_ir(call, environment=environment)
+            except ImportError as exc:
+                # The imported module was not found or not analysed
+                reason = str(exc) or "the module could not be found"
+                error.error(
+                    f"unable to resolve call to {call.symbol.name!r}, {reason}",
+                    culprit=call.symbol,
+                )
+                continue
 
             if call_target is None:
                 continue
